@@ -31,6 +31,8 @@ def arm_of(cx, b, bb):
 
 
 def run(cx):
+    from rules.C02 import project_with_max_dist_rule
+    project_with_max_dist_rule(cx)
     # ---------------------------------------------------------------- MEMO
     E.memo(cx, NC, 'checked')
     E.enc(cx, NC, ('checked', 'this_mesh', 'ref_mesh', 'distance_tol', 'planar_tol', 'angle_tol'), constructors=[f'{NC}::new'])
